@@ -1,7 +1,7 @@
 (* C01/Model.v — executable model of the persistent sending queue
    (exporter/exporterhelper/internal/queuebatch/persistent_queue.go), written after the Go code
-   function by function, INCLUDING its defects (F1, F2 and the "read index never written before
-   the first Read" defect, F11).  No proofs here.
+   function by function, as the code is NOW (after the fix: commits 3baff54d4, f1a9a658a,
+   07d4f773b that repaired the recovery defects F1/F2 and the missing-read-index reset).  No proofs here.
 
    Storage.  The Go code talks to a storage.Client (Get/Set/Delete/Batch over string keys and
    byte values).  The keys it ever uses are "ri", "wi", "si" (8-byte little-endian uint64), "di"
@@ -219,12 +219,15 @@ Definition unref (v : vol) : vol :=
 Definition backup {A} (c : cfg) (v : vol) (k : act A) : act A :=
   if reqSized c then k else Call [SetIdx KSi (Z.to_N (qsize v))] (fun _ => k).
 
-(* func (pq) initPersistentContiguousStorage (+ restoreQueueSizeFromStorage) *)
+(* func (pq) initPersistentContiguousStorage (+ restoreQueueSizeFromStorage).
+   riOp.Value == nil && wiOp.Value != nil: readIndex = 0 and the write index is decoded;
+   otherwise a missing index means "Initializing new persistent queue": BOTH are reset. *)
 Definition initStorage (c : cfg) : act vol :=
   Call [GetIdx KRi; GetIdx KWi] (fun rs =>
     let '(r, w) := match res_idx rs 0, res_idx rs 1 with
                    | Some r, Some w => (r, w)
-                   | _, _ => (0%N, 0%N)     (* "Initializing new persistent queue": BOTH reset *)
+                   | None, Some w => (0%N, w)
+                   | _, None => (0%N, 0%N)
                    end in
     let qs := (w - r)%N in
     if (N.ltb 0 qs) && negb (reqSized c) then
@@ -242,13 +245,19 @@ Definition putInternal (c : cfg) (v : vol) (r : N) : act (vol * bool) :=
       let v' := set_wi_q v (wi v + 1) (qsize v + sz) in
       if N.eqb ((wi v') mod 10) 5 then backup c v' (Done (v', true)) else Done (v', true)).
 
-(* the loop at the end of retrieveAndEnqueueNotDispatchedReqs *)
-Fixpoint reenqueue (c : cfg) (v : vol) (vals : list (option val)) (errc : nat) : act (vol * nat) :=
-  match vals with
-  | [] => Done (v, errc)
-  | Some (VBody r) :: t =>
-      bind (putInternal c v r) (fun x => reenqueue c (fst x) t (if snd x then errc else S errc))
-  | _ :: t => reenqueue c v t errc      (* op.Value == nil: "Failed retrieving item", continue *)
+(* the loop of retrieveAndEnqueueNotDispatchedReqs over (dispatchedItems[i], retrieveBatch[i].Value),
+   followed by cleanup().  [dels]: the indexes still in cleanupBatch (in order); a refused re-put
+   keeps the stored copy, appends the index to currentlyDispatchedItems and drops its delete
+   operation.  cleanup() is ONE Batch call even when no operation is left. *)
+Fixpoint reenqueue (c : cfg) (v : vol) (ivs : list (N * option val)) (dels : list N) (errc : nat)
+  : act (vol * nat) :=
+  match ivs with
+  | [] => Call (map DelItem dels) (fun _ => Done (v, errc))          (* cleanup() *)
+  | (i, Some (VBody r)) :: t =>
+      bind (putInternal c v r) (fun x =>
+        if snd x then reenqueue c (fst x) t (dels ++ [i]) errc
+        else reenqueue c (set_cdi (fst x) (cdi (fst x) ++ [i])) t dels (S errc))
+  | (i, _) :: t => reenqueue c v t (dels ++ [i]) errc   (* op.Value == nil: "Failed retrieving item", continue *)
   end.
 
 (* func (pq) retrieveAndEnqueueNotDispatchedReqs; second component: errCount (only logged in Go) *)
@@ -259,8 +268,7 @@ Definition retrieveAndEnqueue (c : cfg) (v : vol) : act (vol * nat) :=
     | Some [] => Done (v, O)
     | Some di =>
         Call (map GetItem di) (fun vals =>          (* retrieveBatch *)
-        Call (map DelItem di) (fun _ =>             (* cleanupBatch: bodies deleted BEFORE re-enqueue *)
-        reenqueue c v vals O))
+        reenqueue c v (combine di vals) [] O)       (* re-put loop, THEN the cleanup batch *)
     end).
 
 (* func (pq) initClient *)
